@@ -103,6 +103,7 @@ func C03(c *Ctx) {
 	c.noDropRules("C03-3")
 	c.perIterationStateRule("C03-6", "/pkg/parser", "Parser", "GenerateBaseCode")
 	c.docDetachRule("C03-8")
+	c.emptiedDocRule("C03-9")
 
 	r.Rule("C03-5", "lookupType: an unqualified function name of a notation is resolved with Scope().Innermost(pos).LookupParent(name, pos) of the package scope (so file-scope names from dot-imports resolve); a qualified one through the import table")
 	if fn := c.MustMethod("C03-5", "/pkg/parser", "Parser", "lookupType"); fn != nil {
@@ -291,6 +292,7 @@ func C11(c *Ctx) {
 	c.positive("C11-9", "detach-without-test", func(pc *Ctx) { pc.docDetachRule("C11-9") }, []string{"util.Detach"}, nil)
 	c.patternWitnessRule("C11-10")
 	c.lineSubjectRule("C11-11")
+	c.emptiedDocRule("C11-12")
 
 	r.Rule("C11-6", "util.ExtractMatchComments visits every comment of the group (the loop has no exit other than exhaustion), appends every matching comment to the removed list and every non-matching one after the first match to the kept list")
 	if fn := c.MustFunc("C11-6", "/pkg/util", "ExtractMatchComments"); fn != nil {
